@@ -332,7 +332,7 @@ func (x *Exec) frameCheck(s *State, in ssa.Instruction, target T, key string) {
 	}
 	goal := x.freshTerm(s, target)
 	var alts []T
-	alts = append(alts, goal)
+	alts = append(alts, goal, Eq(target, IntLit(0)))
 	for _, m := range fc.Modifies {
 		env := x.specEnvFor(s, "modifies")
 		env.old = true
